@@ -698,6 +698,20 @@ func (c *diskCache) get(ctx context.Context, kind cache.EntryKind, hash string, 
 		return nil, -1, nil
 	}
 
+	if size <= 0 && foundSize > 0 {
+		// The size was unknown when we decided to try the proxy, so no
+		// space has been reserved yet. Now that the backend has told us
+		// the size, reserve it like we do for requests of known size.
+		c.mu.Lock()
+		err = c.lru.Reserve(foundSize)
+		c.mu.Unlock()
+		if err != nil {
+			return nil, -1, err
+		}
+		size = foundSize
+		unreserve = true
+	}
+
 	legacy := kind == cache.CAS && c.storageMode == casblob.Identity
 
 	blobPathBase := path.Join(c.dir, c.FileLocationBase(kind, legacy, hash, foundSize))
